@@ -115,6 +115,10 @@ func TestPairs(t *testing.T) {
 			if cur < skip {
 				continue
 			}
+			if skipM := "," + os.Getenv("C19R_SKIPMETHODS") + ","; strings.Contains(skipM, ","+f+",") || strings.Contains(skipM, ","+g+",") {
+				mark("PAIR %d %s %s SKIPPED", cur, f, g)
+				continue
+			}
 			mf, okf := st.MethodByName(f)
 			mg, okg := st.MethodByName(g)
 			if !okf || !okg {
@@ -154,8 +158,15 @@ func TestPairs(t *testing.T) {
 				}
 			}()
 			close(start)
-			wg.Wait()
-			mark("PAIR %d %s %s END", cur, f, g)
+			fin := make(chan struct{})
+			go func() { wg.Wait(); close(fin) }()
+			select {
+			case <-fin:
+				mark("PAIR %d %s %s END", cur, f, g)
+			case <-time.After(2 * time.Second):
+				// a leaked or cyclically acquired mutex: the goroutines stay blocked, go on
+				mark("PAIR %d %s %s HUNG", cur, f, g)
+			}
 		}
 	}
 	mark("DONE %d", idx)
